@@ -157,6 +157,14 @@ class RegEngine(Engine):
       return sum
     return getattr(mod, shape)
 
+  @staticmethod
+  def metadata(obj):
+    try:
+      sig = str(inspect.signature(obj))
+    except (ValueError, TypeError) as e:
+      sig = 'no signature: ' + type(e).__name__
+    return (getattr(obj, '__name__', None), getattr(obj, '__doc__', None), sig)
+
   def request_coq(self, mod, req, ids):
     obj = self.obj_of(mod, req['shape'])
     is_class = inspect.isclass(obj)
@@ -192,6 +200,8 @@ class RegEngine(Engine):
   def impl(self, case):
     gin = C.fresh_gin()
     cfg = gin.config
+    pristine = load_shapes()     # a copy of every shape that Gin never sees: what name / docstring / signature the original has
+    reference = {sh: self.metadata(self.obj_of(pristine, sh)) for sh in SHAPES}
     mod = load_shapes()
     obs, fails, tags = [], [], []
     nontrivial = False
@@ -333,6 +343,14 @@ class RegEngine(Engine):
         if inspect.isfunction(obj):
           if (ret.__name__, ret.__doc__) != (obj.__name__, obj.__doc__) or str(inspect.signature(ret)) != str(inspect.signature(obj)):
             fails.append(('configurable-changed-metadata', req['shape']))
+        # "gin.configurable returns an object with the original's name, docstring and signature": for every shape (classes are
+        # wrapped in place, so the comparison is with the never-registered copy of the shape)
+        got, want = self.metadata(ret), reference[req['shape']]
+        if want[0] is None:        # a callable object has no __name__ of its own to keep
+          got = (None,) + got[1:]
+        if req['api'] == 'configurable' and got != want:
+          fails.append(('configurable-changed-metadata', '%s: gin.configurable returned (name, doc, signature) %r, the original has %r' % (
+              req['shape'], self.metadata(ret), reference[req['shape']])))
       if req['shape'] in ('fn', 'builtin', 'fn_deco') and not cfg.config_is_locked():
         # the registry's version of a plain callable: same name, docstring and signature, and it is what the selector, the
         # original object and the version itself lead to
@@ -432,4 +450,130 @@ class MethodEngine(Engine):
     return {'obs': obs, 'fails': fails, 'nontrivial': True, 'tags': ['reject' if case['reject'] else 'accept']}
 
 
-ENGINES = [RegEngine(), MethodEngine()]
+class MethodNameClashEngine(Engine):
+  """registering a class re-homes its separately registered methods under <class selector>.<method>: that full name may
+  already be held by a DIFFERENT object (a function or class registered there through an explicit module or a dotted name).
+  From the property text: outside interactive mode the class registration is then rejected without registering anything (the
+  holder keeps the name, the class stays unregistered, the methods stay addressable as before); inside interactive mode
+  the re-registration is permitted; when the holder is the method itself, or nobody, the class is accepted.  Also the reverse
+  order (class first, then the other object asks for <class>.<method>).  Implementation only."""
+  name = 'method-name-clash'
+  model = False
+
+  def budget(self, tier):
+    return 0
+
+  def corpus(self):
+    cs = []
+    for api in ('register', 'external'):
+      for occupant in ('function', 'class', 'self', 'none'):
+        for spelling in ('module', 'dotted'):
+          for interactive in (False, True):
+            for two in (False, True):
+              for order in ('occupant-first', 'class-first'):
+                if order == 'class-first' and occupant in ('self', 'none'):
+                  continue
+                if occupant in ('none', 'self') and spelling == 'dotted':
+                  continue       # (a method registered as 'K.meth' in module mm is re-homed as mm.K.K.meth: not its own name)
+                cs.append({'api': api, 'occupant': occupant, 'spelling': spelling, 'interactive': interactive,
+                           'two_methods': two, 'order': order})
+    return cs
+
+  def gen(self, rng, tier):
+    return rng.choice(self.corpus())
+
+  def impl(self, case):
+    gin = C.fresh_gin()
+    cfg = gin.config
+    fails = []
+    ns = {'gin': gin, '__name__': 'mm'}
+    exec('class K:\n  def __init__(self, a=5):\n    self.a = a\n'  # pylint: disable=exec-used
+         '  @gin.register\n  def meth(self, x=1):\n    return ("method", x)\n' +
+         ('  @gin.register\n  def alpha(self, x=1):\n    return ("alpha", x)\n' if case['two_methods'] else '') +
+         'def other_fn(x=1):\n  return ("function", x)\n'
+         'class OtherCls:\n  def __init__(self, x=1):\n    self.x = x\n', ns)
+    K = ns['K']
+    full = 'mm.K.meth'
+    occupant = {'function': ns['other_fn'], 'class': ns['OtherCls'], 'self': K.meth, 'none': None}[case['occupant']]
+    registry = lambda: sorted(k for k, _ in cfg._REGISTRY.items())  # pylint: disable=protected-access
+    holder = lambda: cfg._REGISTRY[full].wrapped if full in cfg._REGISTRY else None  # pylint: disable=protected-access
+
+    def register_occupant():
+      if case['spelling'] == 'module':
+        return gin.register('meth', module='mm.K')(occupant)
+      return gin.register('K.meth', module='mm')(occupant)
+
+    def register_class():
+      if case['api'] == 'register':
+        return gin.register(K)
+      return gin.external_configurable(K)
+
+    steps = [register_occupant, register_class] if case['order'] == 'occupant-first' else [register_class, register_occupant]
+    if occupant is None:
+      steps = [register_class]
+    if occupant is K.meth:
+      # the method itself is registered under its final name: drop the registration the class body made
+      gin.clear_config()
+      gin = C.fresh_gin()
+      cfg = gin.config
+      ns['gin'] = gin
+      exec('class K:\n  def __init__(self, a=5):\n    self.a = a\n'  # pylint: disable=exec-used
+           '  def meth(self, x=1):\n    return ("method", x)\n' +
+           ('  @gin.register\n  def alpha(self, x=1):\n    return ("alpha", x)\n' if case['two_methods'] else ''), ns)
+      K = ns['K']
+      occupant = K.meth
+      steps = [register_occupant, lambda: (gin.register(K) if case['api'] == 'register' else gin.external_configurable(K))]
+    try:
+      steps[0]()
+    except Exception as e:  # pylint: disable=broad-except
+      return {'obs': ['setup', type(e).__name__], 'fails': [('valid-registration-rejected', 'first step: %s: %s' % (type(e).__name__, str(e)[:120]))],
+              'nontrivial': False, 'tags': ['setup-failed']}
+    if len(steps) == 1:
+      expected_holder, obs = K.meth, ['accepted']
+      if holder() is not K.meth:
+        fails.append(('method-not-rehomed', repr(holder())))
+      return {'obs': obs, 'fails': fails, 'nontrivial': False, 'tags': ['control']}
+    held_before, before = holder(), registry()
+    if case['interactive']:
+      cfg.enter_interactive_mode()
+    try:
+      steps[1]()
+      exc = None
+    except Exception as e:  # pylint: disable=broad-except
+      exc = type(e).__name__
+    finally:
+      cfg.exit_interactive_mode()
+    after, held_after = registry(), holder()
+    second = 'class K' if case['order'] == 'occupant-first' else case['occupant']
+    different = occupant is not K.meth
+    if different and not case['interactive']:
+      # "a different object under an existing full name [is] rejected without registering anything"
+      if exc is None:
+        fails.append(('different-object-under-existing-name-accepted',
+                      'outside interactive mode registering %s was accepted although the full name %r was held by %r: it now '
+                      'resolves to %r' % (second, full, held_before, held_after)))
+      else:
+        if exc != 'ValueError':
+          fails.append(('rejected-with-unexpected-exception', exc))
+        if after != before or held_after is not held_before:
+          fails.append(('rejected-registration-changed-registry', 'registry before %r after %r; %r held by %r, now %r' % (
+              before, after, full, held_before, held_after)))
+        if case['order'] == 'occupant-first':
+          try:
+            gin.bind_parameter('mm.meth.x', 3)        # the separately registered method is still addressable as before
+          except Exception as e:  # pylint: disable=broad-except
+            fails.append(('rejected-registration-lost-method', '%s: %s' % (type(e).__name__, str(e)[:120])))
+    else:
+      # the same object under its own name, or interactive mode: "may an existing name be re-registered"
+      if exc is not None:
+        fails.append(('permitted-registration-rejected', '%s registering %s (%s)' % (
+            exc, second, 'interactive mode' if case['interactive'] else 'the name is held by this very method')))
+      else:
+        want = K.meth if case['order'] == 'occupant-first' else occupant
+        if held_after is not want:
+          fails.append(('re-registration-did-not-take-the-name', '%r is held by %r' % (full, held_after)))
+    return {'obs': [exc, [k for k in after if k not in before]], 'fails': fails[:3], 'nontrivial': different,
+            'tags': ['%s:%s:%s' % (case['order'], case['occupant'], 'interactive' if case['interactive'] else 'plain')]}
+
+
+ENGINES = [RegEngine(), MethodEngine(), MethodNameClashEngine()]
